@@ -194,6 +194,13 @@ where
                 c.verif_set_epsilon(T::from64(e));
                 out.count("extreme_step_size_injected");
             }
+            // the public `position` field is an input: now and then the caller moves the chain between two transitions
+            if k > 0 && (seed >> (k % 50)) & 7 == 0 {
+                let cur = vec1::<T, B>(&c.position);
+                let moved: Vec<f64> = cur.iter().map(|x| x * 0.6 + 0.15).collect();
+                c.position = t1::<T, B>(&moved);
+                out.count("position_overwritten_between_transitions");
+            }
             verif_hooks::tl_enable();
             c.step();
             let ev = verif_hooks::tl_drain();
